@@ -46,6 +46,52 @@ def impl_indices(ns):
         c.time, g.kdf = old_time, old_kdf
 
 
+def impl_indices_advancing(ns0):
+    """the same with a clock that advances one 100 ns tick on every read: (outcome, instants the clock showed)"""
+    import dpapi_ng._client as c
+    import dpapi_ng._gkdi as g
+    shown = []
+
+    class T:
+        @staticmethod
+        def time_ns():
+            shown.append(ns0 + 100 * len(shown))
+            return shown[-1]
+    old_time, old_kdf = c.time, g.kdf
+    c.time = T
+    g.kdf = lambda algorithm, secret, label, context, length: b"\x00" * length
+    try:
+        cache = c.KeyCache()
+        cache.load_key(b"\x01" * 64, RK)
+        env = c._get_protection_gke_from_cache(RK, b"sd", cache)
+        return (env.l0, env.l1, env.l2), shown
+    except Exception as e:  # noqa
+        from check import canon_exc
+        return "err " + canon_exc(e), shown
+    finally:
+        c.time, g.kdf = old_time, old_kdf
+
+
+def advancing_clock(ctx):
+    """a clock that moves during the call: the key identifier must name the interval of ONE instant the clock showed
+    (L0, L1 and L2 taken from different readings can name a key hours or a year in the past)"""
+    Y = 1024 * B
+    k0 = EPOCH // Y + 1
+    for k in range(k0, k0 + (40 if ctx.thorough else 6)):
+        for unit in (Y, 32 * B, B):
+            kk = k * (Y // unit) + (0 if unit == Y else ctx.rng.randrange(1, Y // unit))
+            for d in range(0, 6):
+                ns0 = ticks_to_ns(kk * unit - d)
+                out, shown = impl_indices_advancing(ns0)
+                ctx.count("advancing_clock:reads=%d" % len(shown))
+                ok = any(out == oracle(x // 100 + EPOCH) for x in shown)
+                if not ok:
+                    ctx.violation("key identifier names no interval the (advancing) clock showed during the call",
+                                  {"start_time_ns": ns0, "advance_per_read_ns": 100, "reads": len(shown)}, str(out),
+                                  "one of " + str(sorted(set(oracle(x // 100 + EPOCH) for x in shown))))
+                    return
+
+
 def ticks_to_ns(t):
     # smallest ns value whose FILETIME conversion is t
     return (t - EPOCH) * 100
@@ -92,6 +138,7 @@ def run(ctx):
             ctx.violation("key identifier does not name the interval containing the clock value",
                           {"time_ns": ns, "filetime": ns // 100 + EPOCH}, out, exp)
     ctx.compare_batch(cases, nontrivial=lambda line, impl: True)
+    advancing_clock(ctx)
 
 
 def search(ctx, broken, disagreements):
@@ -112,6 +159,11 @@ def search(ctx, broken, disagreements):
 
 def replay(ctx, payload):
     v = payload["violation"]
+    if "start_time_ns" in v["input"]:
+        out, shown = impl_indices_advancing(v["input"]["start_time_ns"])
+        want = sorted(set(oracle(x // 100 + EPOCH) for x in shown))
+        print(f"clock starting at {v['input']['start_time_ns']} advancing 100 ns per read ({len(shown)} reads): implementation {out}, required one of {want}")
+        return out in want
     ns = v["input"]["time_ns"]
     out = impl_indices(ns)
     exp = "ok %d %d %d" % oracle(ns // 100 + EPOCH)
